@@ -38,7 +38,7 @@ func genC14(ctx *Ctx) {
 		if q == '\'' {
 			other = '"'
 		}
-		alpha := []rune{q, other, 'a', 'é', '日', '😀', ' ', '\n'}
+		alpha := []rune{q, other, 'a', 'é', '日', '😀', ' ', '\n', 0xFFFF}
 		if q == 'é' {
 			alpha[3] = 'x'
 		}
@@ -70,7 +70,7 @@ func genC14(ctx *Ctx) {
 	}
 	for i := 0; i < ctx.N; i++ {
 		q := quotes[ctx.Rnd.Intn(len(quotes))]
-		alpha := []rune{q, q, '\'', '"', 'a', 'é', '日', '😀', ' ', '\n', 0x10FFFF, 1}
+		alpha := []rune{q, q, '\'', '"', 'a', 'é', '日', '😀', ' ', '\n', 0x10FFFF, 1, 0xFFFF, 0xFFFE, 0xFFFD}
 		n := ctx.Rnd.Intn(13)
 		s := make([]rune, n)
 		nt := false
@@ -96,6 +96,8 @@ func genC14(ctx *Ctx) {
 type quoteState interface {
 	tokenizers.IQuoteState
 }
+
+var c14Warm = map[string]tokenizers.ITokenizer{}
 
 func runC14(in sx.SX) (sx.SX, string) {
 	l := sx.AsList(in)
@@ -161,6 +163,24 @@ func runC14(in sx.SX) (sx.SX, string) {
 			alone := mk()
 			alone.SetDecodeStrings(true)
 			after := alone.TokenizeBuffer(rest)
+			// the same on a tokenizer object that was left with a pending look-ahead by an earlier case
+			wk := fmt.Sprint(sx.AsInt(l[0]), q)
+			w := c14Warm[wk]
+			if w == nil {
+				w = mk()
+				w.SetDecodeStrings(true)
+				c14Warm[wk] = w
+			}
+			wt := w.TokenizeBuffer(enc + rest)
+			if len(wt) != len(toks) || (len(wt) > 0 && wt[0].Value() != toks[0].Value()) {
+				v := "<none>"
+				if len(wt) > 0 {
+					v = sx.Quote(wt[0].Value())
+				}
+				fail = fmt.Sprintf("a tokenizer object with an abandoned look-ahead reads %s as %d tokens starting with %s, a new one as %d", sx.Quote(enc+rest), len(wt), v, len(toks))
+			}
+			w.SetReader(sio.NewStringScanner(enc + "x"))
+			w.HasNextToken()
 			if len(toks) == 0 || toks[0].Value() != s {
 				v := "<none>"
 				if len(toks) > 0 {
